@@ -1700,7 +1700,17 @@ struct W1
         if (last) { registry ().errors.clear (); ledger ().errors.clear (); }
         exec (w, h[k], cx);
         if (last)
+        {
           check (w, pre, h[k], cx, opt);
+          // the explorer also drives the object through the follow-up suite after a throw
+          if (cx.exc == EX_INJECTED && trial_viols ().empty ())
+          {
+            registry ().errors.clear ();
+            ledger ().errors.clear ();
+            std::printf ("        (follow-up suite on the object that went through the throw)\n");
+            usability (w);
+          }
+        }
         else if (! w.v)
           w.v = ::new (static_cast<void *> (w.arena.obj ())) SV (AT::make (ALLOC_ID));
         w.model = w.actual ();
